@@ -1,17 +1,17 @@
 SPECIFICATION Spec
 CONSTANTS
-  NReqs = {1, 2}
+  NReqs = {1}
   Bodies = {FALSE, TRUE}
-  Pends = {0, 1}
-  Reads = {"all", "none"}
+  Pends = {0}
+  Reads = {"none"}
   Keeps = {"handler"}
   HeadMs = {0, 2000}
   KaMs = {0, 3000}
   DiscMs = {0, 2000}
   Shuts = {"ready", "never"}
   Graces = {FALSE, TRUE}
-  Errs = {FALSE, TRUE}
-  Budgets = {99}
+  Errs = {FALSE}
+  Budgets = {0}
   HalfClosed = TRUE
   MaxT = 8000
   KnownSigs = {"C03/Resp/after-final/close-response", "C03/Call/after-final/close-response"}
